@@ -103,6 +103,17 @@ func (fc *FuncCtx) call(res ssa.Value, c *ssa.CallCommon, st *State, reach strin
 	if b, ok := c.Value.(*ssa.Builtin); ok && !c.IsInvoke() {
 		return fc.builtin(res, b, c, args, st, reach)
 	}
+	// ground hints: elements of literal variadic slices, in the elem_X form contracts use
+	for _, ca := range c.Args {
+		if lits := fc.varargElems(ca, st); lits != nil {
+			sl := ca.Type().Underlying().(*types.Slice)
+			h := st.get(eng.elemHeap(sl.Elem()))
+			tv := fc.v(ca)
+			for j, el := range lits {
+				fc.q.assume(fmt.Sprintf("(= (%s %s %s %d) %s)", eng.elemFn(eng.sorts.sortOf(sl.Elem())), h, tv.T, j, el))
+			}
+		}
+	}
 	matches := fc.atAsserts(c, args, st, reach)
 	if len(matches) > 0 {
 		defer func(c *ssa.CallCommon, args []TV) {
@@ -444,21 +455,7 @@ func (fc *FuncCtx) applyContract(con *Contract, callee *ssa.Function, sig *types
 	ord := fc.ordinal("call@" + shortCallee(key))
 	site := fmt.Sprintf("%s#%d", shortCallee(key), ord)
 	envPre := &Env{fc: fc, vars: vars, st: st, old: st}
-	// ground hints: elements of literal variadic slices, in the elem_X form contracts use
-	if in, ok := fc.curInstr.(ssa.CallInstruction); ok {
-		cargs := in.Common().Args
-		for k, ca := range cargs {
-			if lits := fc.varargElems(ca, st); lits != nil {
-				sl := ca.Type().Underlying().(*types.Slice)
-				h := st.get(eng.elemHeap(sl.Elem()))
-				tv := fc.v(ca)
-				for j, el := range lits {
-					q.assume(fmt.Sprintf("(= (%s %s %s %d) %s)", eng.elemFn(eng.sorts.sortOf(sl.Elem())), h, tv.T, j, el))
-				}
-				_ = k
-			}
-		}
-	}
+
 	if callee != nil && callee.Signature.Recv() != nil && !con.NilRecv && !con.Trusted {
 		if _, ok := callee.Params[0].Type().Underlying().(*types.Pointer); ok {
 			fc.oblige("pre@"+site, "recv-nonnil", reach, "(not (= "+args[0].T+" 0))", "receiver of "+shortCallee(key)+" is non-nil", nil)
